@@ -88,8 +88,33 @@ def _r161(ctx: Ctx) -> None:
     defs = [n for n in ast.walk(fn) if isinstance(n, ast.Assign) and isinstance(n.targets[0], ast.Name)
             and n.targets[0].id == var]
     ok = len(defs) == 1 and isinstance(defs[0].value, ast.Call) and isinstance(defs[0].value.func, ast.Attribute) \
-        and defs[0].value.func.attr == 'get_fit_status' and len(defs[0].value.args) == 1 \
+        and defs[0].value.func.attr == 'get_fit_status' and len(defs[0].value.args) >= 1 \
         and ast.unparse(defs[0].value.args[0]) == 'entry'
+    if ok:
+        # further arguments of the call are part of the decision: resolve them to constants for R16.3's table
+        call = defs[0].value
+        extra = {}
+        consts = {}
+        for n in ast.walk(fn):
+            if isinstance(n, ast.Assign) and len(n.targets) == 1 and isinstance(n.targets[0], ast.Name):
+                consts.setdefault(n.targets[0].id, []).append(n.value)
+        a_ = fn.args
+        pos = a_.posonlyargs + a_.args
+        for prm, dflt in list(zip(pos[len(pos) - len(a_.defaults):], a_.defaults)) + \
+                [(prm, d) for prm, d in zip(a_.kwonlyargs, a_.kw_defaults) if d is not None]:
+            consts.setdefault(prm.arg, []).append(dflt)          # the documented default of the caller's own parameter
+        mfn = aci.methods['get_fit_status']
+        pnames = [a.arg for a in mfn.args.args][1:]
+        given = list(zip(pnames[1:], call.args[1:])) + [(k.arg, k.value) for k in call.keywords]
+        for name, v in given:
+            if isinstance(v, ast.Name) and len(consts.get(v.id, ())) == 1:
+                v = consts[v.id][0]
+            try:
+                extra[name] = ast.literal_eval(v)
+            except (ValueError, SyntaxError):
+                raise AnalysisError('R16.3', site_of(ami, call), f'get_fit_status argument {name}={ast.unparse(v)} is not a '
+                                                                  f'constant the analysis can evaluate')
+        ctx.extra['fit_status_call_kwargs'] = extra
     ctx.ob('R16.3', site_of(ami, defs[0]) if defs else site, 'the status comes from get_fit_status(entry) of the same entry', ok,
            f'{[norm_stmt(d) for d in defs]}', key='calculate_thresholds|fit_status')
 
@@ -195,13 +220,18 @@ def _r163(ctx: Ctx) -> None:
              ('threshold right of the data range', {'p_th_fss': 0.16}, False),
              ('threshold at the left data edge', {'p_th_fss': 0.05, 'p_th_fss_left': 0.04}, True),
              ('logical rate at threshold above 1', {'fss_params': np.array([0.1, 1.2, 1.3, 1.0, 0.5])}, False),
-             ('flat zero fit', {'fss_params': np.array([0.1, 1.2, 0.0, 0.0, 0.0])}, False)]
+             ('flat zero fit', {'fss_params': np.array([0.1, 1.2, 0.0, 0.0, 0.0])}, False),
+             # a low threshold with good statistics: every quantity scales with p_th
+             ('valid entry at p_th = 1e-3 (interval width 6.6e-6)',
+              {'fss_params': np.array([1e-3, 1.2, 0.3, 1.0, 0.5]), 'p_th_fss': 1.0006e-3, 'p_th_fss_left': 0.9973e-3,
+               'p_th_fss_right': 1.0039e-3, 'p_th_fss_se': 3.3e-6, 'p_left': 5e-4, 'p_right': 2e-3}, True)]
+    call_kw = dict(ctx.extra.get('fit_status_call_kwargs', {}))
     for label, delta, want in cases:
         entry = dict(good)
         entry.update(delta)
         it = Interp(m, _HStatus())
         outs = guard('R16.3', ami, fn)(lambda: it.explore(
-            lambda: it.call_closure(Closure(fn, ami, aci), [entry], {}, fn, self_obj=Obj(aci, 'analysis'))))
+            lambda: it.call_closure(Closure(fn, ami, aci), [entry], dict(call_kw), fn, self_obj=Obj(aci, 'analysis'))))
         ctx.need(len(outs) == 1 and outs[0].kind == 'return', 'R16.3', site, f'get_fit_status({label}): {outs!r}')
         v = outs[0].value
         ok = (v == 'success') == want and isinstance(v, str)
